@@ -742,6 +742,449 @@ impl FixtureDatabase {
 @*/
 //@@EXTRACT-END
 //@@CANARY-BEGIN
+/*@ extract src/fixtures/scanner.rs scan_imported_fixture_modules
+@tags C14 C12
+@as canary_scan_contract_vacuous
+@recv mut
+@replace 1 `use std::collections::HashSet;` => ``
+@wrapexpr 1 `key .file_name() .and_then(|n| n.to_str()) .map(|n| { n == "conftest.py" || (n.starts_with("test_") && n.ends_with(".py")) || n.ends_with("_test.py") }) .unwrap_or(false)` => `Self::vp_is_conftest_or_test_c(key)` with fn vp_is_conftest_or_test_c(key: &PathBuf) -> (r: bool) ensures r == is_conftest_or_test_name(pbv(key))
+@wrapexpr 1 `std::fs::read_to_string(module_path)` => `Self::vp_read_to_string_c(module_path)` with fn vp_read_to_string_c(module_path: &PathBuf) -> (r: Result<String, std::io::Error>) ensures (match r { Ok(s) => Some(s@), Err(_) => None::<Seq<char>> }) == fs_read(pbv(module_path))
+@closure map:1 |e: &EditableInstall| -> (p: PathBuf) ensures pbv(&p) == pbv(&e.source_root)
+@closure filter:1 |entry: &RefMulti<'_, PathBuf, Arc<String>>| -> (b: bool) ensures b == is_initial(pbvs(site_packages_paths@), pbvs(editable_roots@), self.plugins(), pbv(entry.k))
+@closure any:1 |sp: &PathBuf| -> (b: bool) ensures b == pv_is_prefix(pbv(sp), pbv(key))
+@closure any:2 |er: &PathBuf| -> (b: bool) ensures b == pv_is_prefix(pbv(er), pbv(key))
+@closure map:3 |entry: RefMulti<'_, PathBuf, Arc<String>>| -> (p: PathBuf) ensures pbv(&p) == pbv(entry.k)
+@rename chain vp_chain
+@nocontinue 2
+@sig
+    requires
+        // FINITE-UNIVERSE ASSUMPTION, part 1: the keys of file_cache lie in scan_universe()
+        old(self).cache().dom().subset_of(scan_universe()),
+        // C11: `iteration` is an i32 counter; it stays below 3 * (number of paths in the universe)
+        3 * scan_universe().len() < 0x7fff_ffff,
+    ensures
+        exists|h: Hist| Self::hist_post(old(self), final(self), h),
+@start
+    let ghost uni = scan_universe();
+    let ghost mut snap: Map<PV, Snap> = Map::empty();
+    let ghost mut why: Map<PV, Mark> = Map::empty();
+    let ghost mut src: Map<PV, Src> = Map::empty();
+    let ghost mut tr: Seq<AStep> = Seq::empty();
+    let ghost mut queued: Set<PV> = Set::empty();
+@after is_venv_plugin 1
+    proof {
+        let s = site_packages_paths@;
+        assert(is_venv_plugin == seq_has_prefix_of(pbvs(s), pbv(key))) by {
+            if is_venv_plugin { let i = choose|i: int| 0 <= i < s.len() && pv_is_prefix(pbv(#[trigger] s.as_ref()[i]), pbv(key)); assert(pbvs(s)[i] == pbv(&s[i])); }
+            if seq_has_prefix_of(pbvs(s), pbv(key)) { let i = choose|i: int| 0 <= i < pbvs(s).len() && pv_is_prefix(#[trigger] pbvs(s)[i], pbv(key)); let y = s.as_ref()[i]; }
+        }
+    }
+@after is_editable_plugin 1
+    proof {
+        let s = editable_roots@;
+        assert(is_editable_plugin == seq_has_prefix_of(pbvs(s), pbv(key))) by {
+            if is_editable_plugin { let i = choose|i: int| 0 <= i < s.len() && pv_is_prefix(pbv(#[trigger] s.as_ref()[i]), pbv(key)); assert(pbvs(s)[i] == pbv(&s[i])); }
+            if seq_has_prefix_of(pbvs(s), pbv(key)) { let i = choose|i: int| 0 <= i < pbvs(s).len() && pv_is_prefix(#[trigger] pbvs(s)[i], pbv(key)); let y = s.as_ref()[i]; }
+        }
+    }
+@after files_to_check 1
+    proof {
+        assert(pbvs(site_packages_paths@) =~= pbvs(self.site_packages_paths@));
+        assert(pbvs(editable_roots@) =~= roots(self.editable_install_roots@));
+        assert forall|j: int| 0 <= j < files_to_check@.len() implies old(self).initial(pbv(&#[trigger] files_to_check@[j])) by { }
+        assert forall|k: PV| old(self).initial(k) implies set_of(files_to_check@).contains(k) by {
+            assert(want(entry_key_fn(), k));
+            assert(exists|j: int| 0 <= j < files_to_check@.len() && pbv(&#[trigger] files_to_check@[j]) == k);
+            let j = choose|j: int| 0 <= j < files_to_check@.len() && pbv(&#[trigger] files_to_check@[j]) == k;
+            assert(pbvs(files_to_check@)[j] == k);
+        }
+        queued = set_of(files_to_check@);
+    }
+@return 1
+    assert(false);   // V1: context of the start-set computation
+    let h = Hist { snap: snap, why: why, src: src, tr: tr, nfresh: 0 };
+    assert(set_of(files_to_check@) =~= Set::<PV>::empty());
+    assert(Self::post_frame(old(self), self, h)) by { assert(self.plugins() =~= old(self).plugins().union(why.dom())); }
+    assert(Self::post_P(old(self), self, h));
+    assert(Self::post_D(old(self), self, h));
+    assert(Self::post_R(old(self), self, h)) by { reveal(cleanup_ok); }
+    assert(Self::hist_post(old(self), self, h));
+@before files_to_check 4
+    let ghost mut m0: nat = scan_measure(uni, self.plugins(), processed_files.s());
+    proof {
+        assert(snap.dom() =~= processed_files.s());
+        assert(self.plugins() =~= old(self).plugins().union(why.dom()));
+        assert(done_ok(snap, self.plugins(), queued, None)) by { reveal(done_ok); }
+        assert(snap_ok(snap, old(self).plugins(), self.plugins())) by { reveal(snap_ok); }
+        assert(why_ok(snap, why, old(self).plugins(), self.plugins(), processed_files.s())) by { reveal(why_ok); }
+        assert(asp_ok(snap, processed_files.s(), self.plugins())) by { reveal(asp_ok); }
+        assert(cleanup_ok(old(self).idx(), old(self).consts(), tr, tr.len() as int)) by { reveal(cleanup_ok); }
+        assert(reanalyze_as_plugin.s() =~= rean_set(why));
+        assert(disc_ok(tr, queued, old(self).plugins(), self.plugins())) by { reveal(disc_ok); }
+        assert(handled_ok(old(self).cache(), tr, queued, Set::<PV>::empty())) by { reveal(handled_ok); }
+        assert(cache_src(old(self).cache(), tr, self.cache())) by { reveal(cache_src); }
+        assert(snapc_ok(snap, old(self).cache(), tr)) by { reveal(snapc_ok); }
+        lemma_todo_le(uni, processed_files.s()); lemma_todo_le(uni, self.plugins());
+    }
+@loop 1
+    invariant_except_break
+        iteration as int + scan_measure(uni, self.plugins(), processed_files.s()) <= 3 * uni.len(),
+    invariant
+        uni == scan_universe(), 3 * uni.len() < 0x7fff_ffff,
+        self.ginv(old(self), processed_files.s(), queued, snap, why, src, tr, reanalyze_as_plugin.s(), None),
+        handled_ok(old(self).cache(), tr, queued, Set::<PV>::empty()),
+        set_of(files_to_check@).subset_of(queued), queued.subset_of(processed_files.s().union(set_of(files_to_check@))),
+        0 <= iteration as int,
+    ensures
+        queued =~= processed_files.s(),
+    decreases scan_measure(uni, self.plugins(), processed_files.s()),
+@loopstart 1
+    proof { m0 = scan_measure(uni, self.plugins(), processed_files.s()); }
+    let ghost c_it = self.cache();
+@loopvar 2 it2
+@loop 2
+    invariant
+        uni == scan_universe(), c_it == self.cache(), it2.seq() == files_to_check@.as_ref(),
+        self.ginv(old(self), processed_files.s(), queued, snap, why, src, tr, reanalyze_as_plugin.s(), None),
+        handled_ok(old(self).cache(), tr, queued, new_modules.s()),
+        set_of(files_to_check@).subset_of(queued), new_modules.s().subset_of(queued), already_cached.s().subset_of(queued),
+        queued.subset_of(processed_files.s().union(set_of(files_to_check@)).union(new_modules.s()).union(already_cached.s())),
+        forall|m: PV| #[trigger] new_modules.s().contains(m) ==> canon(m) == m && !c_it.contains_key(m),
+        forall|j: int| 0 <= j < it2.index@ ==> (processed_files.s().contains(pbv(&#[trigger] files_to_check@[j])) || new_modules.s().contains(pbv(&files_to_check@[j])) || already_cached.s().contains(pbv(&files_to_check@[j]))),
+        scan_measure(uni, self.plugins(), processed_files.s()) <= m0,
+        new_modules.s().len() > 0 || already_cached.s().len() > 0 ==> scan_measure(uni, self.plugins(), processed_files.s()) < m0,
+@loopstart 2
+    let ghost cur = pbv(file_path);
+    let ghost i2 = it2.index@ as int;
+    let ghost pset0 = processed_files.s();
+    proof {
+        assert(*file_path == files_to_check@[i2]);
+        assert(pbvs(files_to_check@)[i2] == cur);
+        assert(set_of(files_to_check@).contains(cur));
+    }
+@after importer_is_plugin 1
+    let ghost sc = Snap { cache: self.cache(), plugins: self.plugins() };
+    let ghost env = env_of(c_it);
+    proof {
+        lemma_why_pl(snap, why, old(self).plugins(), self.plugins(), pset0);
+        lemma_done_begin(snap, self.plugins(), queued, cur, sc);
+        lemma_snap_ok_add(snap, old(self).plugins(), self.plugins(), cur, sc);
+        lemma_why_ok_snap(snap, why, old(self).plugins(), self.plugins(), pset0, cur, sc);
+        lemma_asp_add(snap, pset0, self.plugins(), cur, sc);
+        lemma_snapc_add(snap, old(self).cache(), tr, cur, sc);
+        snap = snap.insert(cur, sc);
+        lemma_todo_insert(uni, pset0, cur);
+        assert(pset0.insert(cur) =~= processed_files.s());
+    }
+@continueproof 2 2
+    lemma_file_done_no_body(snap[cur], cur, self.plugins(), queued);
+    lemma_done_end(snap, self.plugins(), queued, cur);
+@continueproof 2 3
+    lemma_file_done_no_body(snap[cur], cur, self.plugins(), queued);
+    lemma_done_end(snap, self.plugins(), queued, cur);
+@after imports 1
+    let ghost body = module.body@;
+    let ghost imps0 = imports@;
+    proof {
+        assert(body_at(env, cur) == Some(body));
+        assert(imps_v(imps0) == imps(env, cur));
+        lemma_cur_imps_zero(env, cur, importer_is_plugin, self.plugins(), queued);
+    }
+@loopvar 3 it3
+@loop 3
+    invariant
+        uni == scan_universe(), c_it == self.cache(), env == env_of(c_it), cur == pbv(file_path),
+        self.ginv(old(self), processed_files.s(), queued, snap, why, src, tr, reanalyze_as_plugin.s(), Some(cur)),
+        snap.contains_key(cur), snap[cur].cache == c_it, importer_is_plugin == snap[cur].plugins.contains(cur), processed_files.s().contains(cur),
+        importer_is_plugin ==> self.plugins().contains(cur),
+        body == module.body@, body_at(env, cur) == Some(body), it3.seq() == imps0, imps_v(imps0) == imps(env, cur),
+        cur_imps_done(env, cur, importer_is_plugin, it3.index@ as int, self.plugins(), queued),
+        handled_ok(old(self).cache(), tr, queued, new_modules.s()),
+        set_of(files_to_check@).subset_of(queued), new_modules.s().subset_of(queued), already_cached.s().subset_of(queued),
+        queued.subset_of(processed_files.s().union(set_of(files_to_check@)).union(new_modules.s()).union(already_cached.s())),
+        forall|m: PV| #[trigger] new_modules.s().contains(m) ==> canon(m) == m && !c_it.contains_key(m),
+        0 <= i2 < files_to_check@.len(), pbv(&files_to_check@[i2]) == cur,
+        forall|j: int| 0 <= j <= i2 ==> (processed_files.s().contains(pbv(&#[trigger] files_to_check@[j])) || new_modules.s().contains(pbv(&files_to_check@[j])) || already_cached.s().contains(pbv(&files_to_check@[j]))),
+        scan_measure(uni, self.plugins(), processed_files.s()) < m0,
+@loopstart 3
+    let ghost ii = it3.index@ as int;
+    let ghost pl_a = self.plugins();
+    let ghost q_a = queued;
+    let ghost nm_a = new_modules.s();
+    let ghost p_a = processed_files.s();
+    proof { assert(import == imps0[ii]); assert(imp_v(&import) == imps(env, cur)[ii]); }
+@after resolved_path 2
+    let ghost h = pbv(&canonical);
+    proof { assert(imp_target(env, cur, ii) == Some(h)); assert(imp_any_at(env, cur, ii, h)); lemma_any_edge_imp(env, cur, ii, h); }
+@after insert 2
+    proof {
+        assert(false);   // V2: imports loop, branch that marks a star-imported module (resolve / canonicalise / insert)
+        let m = Mark { by: cur, cached: c_it.contains_key(h) };
+        assert(star_at(env, cur, ii, h));
+        lemma_edge_star(env, cur, ii, h);
+        lemma_why_ok_mark(snap, why, old(self).plugins(), pl_a, p_a, h, m);
+        lemma_rean_mark(why, h, m);
+        lemma_asp_mark(snap, p_a, pl_a, h);
+        lemma_measure_mark(uni, pl_a, p_a, h);
+        why = why.insert(h, m);
+        assert(self.plugins() =~= pl_a.insert(h));
+    }
+@loopend 3
+    proof {
+        let tgt = imp_target(env, cur, ii);
+        if tgt is None { lemma_cur_imps_unresolved(env, cur, importer_is_plugin, ii, self.plugins(), queued); }
+        else {
+            let h = tgt->Some_0;
+            if !processed_files.s().contains(h) {
+                if c_it.contains_key(h) { lemma_handled_enqueue_cached(old(self).cache(), tr, q_a, nm_a, c_it, h); }
+                else { lemma_handled_enqueue(old(self).cache(), tr, q_a, nm_a, h); }
+                src = src.insert(h, Src { by: cur, cache: c_it });
+                queued = queued.insert(h);
+            }
+            lemma_snap_ok_mono(snap, old(self).plugins(), pl_a, self.plugins());
+            lemma_done_mono(snap, pl_a, q_a, Some(cur), self.plugins(), queued);
+            lemma_disc_ok_mono(tr, q_a, old(self).plugins(), pl_a, queued, self.plugins());
+            lemma_cur_imps_mono(env, cur, importer_is_plugin, ii, pl_a, q_a, self.plugins(), queued);
+            lemma_cur_imps_step(env, cur, importer_is_plugin, ii, h, self.plugins(), queued);
+        }
+    }
+@after plugin_modules 1
+    let ghost plugs0 = plugin_modules@;
+    proof { assert(strs_v(plugs0) == plugs(env, cur)); lemma_cur_plugs_zero(env, cur, importer_is_plugin, self.plugins(), queued); }
+@loopvar 4 it4
+@loop 4
+    invariant
+        uni == scan_universe(), c_it == self.cache(), env == env_of(c_it), cur == pbv(file_path),
+        self.ginv(old(self), processed_files.s(), queued, snap, why, src, tr, reanalyze_as_plugin.s(), Some(cur)),
+        snap.contains_key(cur), snap[cur].cache == c_it, importer_is_plugin == snap[cur].plugins.contains(cur), processed_files.s().contains(cur),
+        importer_is_plugin ==> self.plugins().contains(cur),
+        body_at(env, cur) == Some(body), it4.seq() == plugs0, strs_v(plugs0) == plugs(env, cur),
+        cur_imps_done(env, cur, importer_is_plugin, imps(env, cur).len() as int, self.plugins(), queued),
+        cur_plugs_done(env, cur, importer_is_plugin, it4.index@ as int, self.plugins(), queued),
+        handled_ok(old(self).cache(), tr, queued, new_modules.s()),
+        set_of(files_to_check@).subset_of(queued), new_modules.s().subset_of(queued), already_cached.s().subset_of(queued),
+        queued.subset_of(processed_files.s().union(set_of(files_to_check@)).union(new_modules.s()).union(already_cached.s())),
+        forall|m: PV| #[trigger] new_modules.s().contains(m) ==> canon(m) == m && !c_it.contains_key(m),
+        0 <= i2 < files_to_check@.len(), pbv(&files_to_check@[i2]) == cur,
+        forall|j: int| 0 <= j <= i2 ==> (processed_files.s().contains(pbv(&#[trigger] files_to_check@[j])) || new_modules.s().contains(pbv(&files_to_check@[j])) || already_cached.s().contains(pbv(&files_to_check@[j]))),
+        scan_measure(uni, self.plugins(), processed_files.s()) < m0,
+@loopstart 4
+    let ghost jj = it4.index@ as int;
+    let ghost pl_a = self.plugins();
+    let ghost q_a = queued;
+    let ghost nm_a = new_modules.s();
+    let ghost p_a = processed_files.s();
+    proof { assert(module_path == plugs0[jj]); assert(module_path@ == plugs(env, cur)[jj]); }
+@after resolved_path 4
+    let ghost h = pbv(&canonical);
+    proof { assert(plug_target(env, cur, jj) == Some(h)); assert(plug_at(env, cur, jj, h)); lemma_any_edge_plug(env, cur, jj, h); }
+@after insert 6
+    proof {
+        assert(false);   // V3: pytest_plugins loop, branch that marks a module
+        let m = Mark { by: cur, cached: c_it.contains_key(h) };
+        lemma_edge_plug(env, cur, jj, h);
+        lemma_why_ok_mark(snap, why, old(self).plugins(), pl_a, p_a, h, m);
+        lemma_rean_mark(why, h, m);
+        lemma_asp_mark(snap, p_a, pl_a, h);
+        lemma_measure_mark(uni, pl_a, p_a, h);
+        why = why.insert(h, m);
+        assert(self.plugins() =~= pl_a.insert(h));
+    }
+@loopend 4
+    proof {
+        let tgt = plug_target(env, cur, jj);
+        if tgt is None { lemma_cur_plugs_unresolved(env, cur, importer_is_plugin, jj, self.plugins(), queued); }
+        else {
+            let h = tgt->Some_0;
+            if !processed_files.s().contains(h) {
+                if c_it.contains_key(h) { lemma_handled_enqueue_cached(old(self).cache(), tr, q_a, nm_a, c_it, h); }
+                else { lemma_handled_enqueue(old(self).cache(), tr, q_a, nm_a, h); }
+                src = src.insert(h, Src { by: cur, cache: c_it });
+                queued = queued.insert(h);
+            }
+            lemma_snap_ok_mono(snap, old(self).plugins(), pl_a, self.plugins());
+            lemma_done_mono(snap, pl_a, q_a, Some(cur), self.plugins(), queued);
+            lemma_disc_ok_mono(tr, q_a, old(self).plugins(), pl_a, queued, self.plugins());
+            lemma_cur_imps_mono(env, cur, importer_is_plugin, imps(env, cur).len() as int, pl_a, q_a, self.plugins(), queued);
+            lemma_cur_plugs_mono(env, cur, importer_is_plugin, jj, pl_a, q_a, self.plugins(), queued);
+            lemma_cur_plugs_step(env, cur, importer_is_plugin, jj, h, self.plugins(), queued);
+        }
+    }
+@after for 3
+    proof {
+        lemma_file_done_from_lists(snap[cur], cur, self.plugins(), queued);
+        lemma_done_end(snap, self.plugins(), queued, cur);
+    }
+@after parsed 2
+    proof {
+        if body_at(env, cur) is None {
+            lemma_file_done_no_body(snap[cur], cur, self.plugins(), queued);
+            lemma_done_end(snap, self.plugins(), queued, cur);
+        }
+    }
+@before new_modules 4
+    proof {
+        if new_modules.s().len() == 0 { lemma_len0_empty(new_modules.s()); }
+        if already_cached.s().len() == 0 { lemma_len0_empty(already_cached.s()); }
+        assert(set_of(files_to_check@).subset_of(processed_files.s().union(new_modules.s()).union(already_cached.s()))) by {
+            assert forall|x: PV| set_of(files_to_check@).contains(x) implies processed_files.s().union(new_modules.s()).union(already_cached.s()).contains(x) by {
+                let j = choose|j: int| 0 <= j < pbvs(files_to_check@).len() && pbvs(files_to_check@)[j] == x;
+                assert((processed_files.s().contains(pbv(&files_to_check@[j])) || new_modules.s().contains(pbv(&files_to_check@[j])) || already_cached.s().contains(pbv(&files_to_check@[j]))));
+            }
+        }
+    }
+@before for 4
+    let ghost nm = new_modules.s();
+    let ghost ac = already_cached.s();
+    let ghost mut left: Set<PV> = nm;
+    let ghost pl5 = self.plugins();
+@loopvar 5 it5
+@loop 5
+    invariant
+        uni == scan_universe(), nm == new_modules.s(), ac == already_cached.s(), self.plugins() == pl5,
+        forall|j: int| 0 <= j < it5.seq().len() ==> nm.contains(pbv(#[trigger] it5.seq()[j])),
+        forall|i: int, j: int| 0 <= i < j < it5.seq().len() ==> pbv(it5.seq()[i]) != pbv(it5.seq()[j]),
+        self.ginv(old(self), processed_files.s(), queued, snap, why, src, tr, reanalyze_as_plugin.s(), None),
+        handled_ok(old(self).cache(), tr, queued, left), left.subset_of(nm),
+        forall|m: PV| #[trigger] left.contains(m) ==> exists|j: int| it5.index@ <= j < it5.seq().len() && pbv(#[trigger] it5.seq()[j]) == m,
+        forall|m: PV| #[trigger] nm.contains(m) ==> canon(m) == m,
+        forall|j: int| it5.index@ <= j < it5.seq().len() ==> !self.cache().contains_key(pbv(#[trigger] it5.seq()[j])),
+        nm.subset_of(queued), ac.subset_of(queued), queued.subset_of(processed_files.s().union(nm).union(ac)),
+@loopstart 5
+    let ghost m = pbv(module_path);
+    let ghost i5 = it5.index@ as int;
+    let ghost c_b = self.cache();
+    let ghost i_b = self.idx();
+    let ghost tr_b = tr;
+    proof { assert(*module_path == *it5.seq()[i5]); lemma_why_pl(snap, why, old(self).plugins(), self.plugins(), processed_files.s()); }
+@loopend 5
+    proof {
+        if fs_exists(m) && fs_read(m) is Some {
+            assert(false);   // V4: analysis loop, after exists / read / analyze_file or analyze_file_fresh
+            // the module was analysed: with cleanup iff the index had entries for it
+            let s = AStep { f: m, text: fs_read(m)->Some_0, cleanup: has_entries(i_b, m), cache: c_b, plugins: self.plugins() };
+            lemma_chain_push(old(self).cache(), tr, c_b, s, self.cache());
+            lemma_disc_ok_push(tr, queued, old(self).plugins(), self.plugins(), s);
+            lemma_cache_src_push(old(self).cache(), tr, c_b, s, self.cache());
+            lemma_snapc_push(snap, old(self).cache(), tr, s);
+            lemma_replay_push(old(self).idx(), old(self).consts(), tr, s);
+            lemma_cleanup_push(old(self).idx(), old(self).consts(), tr, s);
+            tr = tr.push(s);
+            assert(tr[tr.len() - 1].f == m);
+            assert(tr.last() == s);
+        }
+        lemma_handled_dequeue(old(self).cache(), tr_b, tr, queued, left, m);
+        left = left.remove(m);
+    }
+@after for 4
+    proof { assert(left =~= Set::<PV>::empty()); }
+@after files_to_check 7
+    proof {
+        assert(set_of(files_to_check@) =~= nm.union(ac)) by {
+            assert forall|x: PV| nm.union(ac).contains(x) implies set_of(files_to_check@).contains(x) by {
+                let j = choose|j: int| 0 <= j < files_to_check@.len() && pbv(&#[trigger] files_to_check@[j]) == x;
+                assert(pbvs(files_to_check@)[j] == x);
+            }
+            assert forall|x: PV| set_of(files_to_check@).contains(x) implies nm.union(ac).contains(x) by {
+                let j = choose|j: int| 0 <= j < pbvs(files_to_check@).len() && pbvs(files_to_check@)[j] == x;
+                assert(nm.union(ac).contains(pbv(&files_to_check@[j])));
+            }
+        }
+    }
+@before reanalyze_as_plugin 4
+    let ghost nf = tr.len() as int;
+    let ghost tr_f = tr;
+    let ghost plf = self.plugins();
+    let ghost ra = reanalyze_as_plugin.s();
+    let ghost mut done6: Set<PV> = Set::empty();
+    proof {
+        assert(tr.take(nf) =~= tr_f);
+        assert forall|x: PV| #[trigger] ra.contains(x) implies canon(x) == x by { reveal(why_ok); assert(why.contains_key(x)); }
+    }
+@loopvar 6 it6
+@loop 6
+    invariant
+        ra == reanalyze_as_plugin.s(), ra == rean_set(why), plf == self.plugins(), self.consts() == old(self).consts(),
+        forall|j: int| 0 <= j < it6.seq().len() ==> ra.contains(pbv(#[trigger] it6.seq()[j])),
+        forall|i: int, j: int| 0 <= i < j < it6.seq().len() ==> pbv(it6.seq()[i]) != pbv(it6.seq()[j]),
+        forall|x: PV| #[trigger] ra.contains(x) ==> canon(x) == x,
+        chain_ok(old(self).cache(), tr, self.cache()), self.idx() == replay(old(self).idx(), old(self).consts(), tr),
+        0 <= nf <= tr.len(), tr.take(nf) == tr_f,
+        forall|i: int| nf <= i < tr.len() ==> rean_step_ok(why, plf, #[trigger] tr[i]) && done6.contains(tr[i].f),
+        forall|i: int, j: int| nf <= i < j < tr.len() ==> (#[trigger] tr[i]).f != (#[trigger] tr[j]).f,
+        forall|x: PV| #[trigger] ra.contains(x) ==> done6.contains(x) || exists|j: int| it6.index@ <= j < it6.seq().len() && pbv(#[trigger] it6.seq()[j]) == x,
+        forall|j: int| it6.index@ <= j < it6.seq().len() ==> !done6.contains(pbv(#[trigger] it6.seq()[j])),
+        forall|x: PV| #[trigger] done6.contains(x) ==> has_rean(tr, nf, x) || (!self.cache().contains_key(x) && fs_read(x) is None),
+@loopstart 6
+    let ghost m = pbv(module_path);
+    let ghost i6 = it6.index@ as int;
+    let ghost c_b = self.cache();
+    let ghost tr_b = tr;
+    proof { assert(*module_path == *it6.seq()[i6]); }
+@after clone -1
+    proof {
+        assert(false);   // V5: re-analysis loop, after get_file_content / analyze_file
+        let s = AStep { f: m, text: (*content)@, cleanup: true, cache: c_b, plugins: plf };
+        lemma_chain_push(old(self).cache(), tr, c_b, s, self.cache());
+        lemma_replay_push(old(self).idx(), old(self).consts(), tr, s);
+        tr = tr.push(s);
+        assert(tr.take(nf) =~= tr_f);
+        assert(tr[tr.len() - 1].f == m);
+    }
+@loopend 6
+    proof {
+        assert forall|x: PV| done6.contains(x) && has_rean(tr_b, nf, x) implies has_rean(tr, nf, x) by {
+            let i = choose|i: int| nf <= i < tr_b.len() && (#[trigger] tr_b[i]).f == x;
+            assert(tr[i].f == x);
+        }
+        done6 = done6.insert(m);
+    }
+@after for 5
+    proof {
+        assert(rean_final(why, tr, nf, self.cache(), plf)) by {
+            assert forall|x: PV| #[trigger] rean_set(why).contains(x) implies has_rean(tr, nf, x) || content_of(self.cache(), x) is None by {
+                assert(done6.contains(x));
+            }
+        }
+    }
+@end
+    proof {
+        let h = Hist { snap: snap, why: why, src: src, tr: tr, nfresh: nf };
+        assert(tr.take(nf) =~= tr_f);
+        assert(snap.dom() =~= processed_files.s());
+        assert(rean_final(why, tr, nf, self.cache(), plf)) by {
+            if ra.len() == 0 { assert(ra =~= Set::<PV>::empty()); assert(tr == tr_f); }
+        }
+        assert(Self::post_frame(old(self), self, h)) by { reveal(why_ok); }
+        assert(Self::post_P(old(self), self, h)) by { reveal(why_ok); reveal(snap_ok); reveal(done_ok); reveal(file_done); reveal(asp_ok); }
+        assert(Self::post_D(old(self), self, h)) by {
+            reveal(done_ok); reveal(file_done); reveal(handled_ok);
+            assert forall|g: PV, x: PV| snap.contains_key(g) && #[trigger] snap[g].cache.contains_key(x) implies old(self).cache().contains_key(x) || has_disc(tr, nf, x) by {
+                reveal(snapc_ok); reveal(cache_src);
+                if has_disc(tr_f, tr_f.len() as int, x) {
+                    let i = choose|i: int| 0 <= i < tr_f.len() && (#[trigger] tr_f[i]).f == x;
+                    assert(tr.take(nf)[i] == tr[i]);
+                }
+            }
+            assert forall|m: PV| #[trigger] snap.contains_key(m) implies handled(old(self).cache(), tr, nf, m) by {
+                assert(queued.contains(m));
+                if has_disc(tr_f, tr_f.len() as int, m) {
+                    let i = choose|i: int| 0 <= i < tr_f.len() && (#[trigger] tr_f[i]).f == m;
+                    assert(tr.take(nf)[i] == tr[i]);
+                }
+            }
+        }
+        assert(Self::post_R(old(self), self, h)) by {
+            reveal(disc_ok);
+            lemma_cleanup_ext(old(self).idx(), old(self).consts(), tr_f, nf, tr);
+            assert forall|i: int| 0 <= i < nf implies disc_step_ok(#[trigger] tr[i]) && snap.contains_key(tr[i].f)
+                && old(self).plugins().subset_of(tr[i].plugins) && tr[i].plugins.subset_of(self.plugins()) by {
+                assert(tr.take(nf)[i] == tr[i]);
+            }
+        }
+        assert(Self::hist_post(old(self), self, h));
+    }
+@*/
 //@@CANARY-END
 
 }
@@ -767,31 +1210,41 @@ pub proof fn lemma_C14_entry_plugin_targets_marked(o: FixtureDatabase, f: Fixtur
 {
     assert(o.initial(e));
 }
-/// a chain e = p[0] -> p[1] -> ... of star imports / pytest_plugins declarations, each link read in the state its
-/// importer was processed in
-pub open spec fn plugin_chain(h: Hist, p: Seq<PV>) -> bool {
-    p.len() >= 1 && forall|i: int| 0 <= i < p.len() - 1 ==> h.snap.contains_key(#[trigger] p[i]) && edge(env_of(h.snap[p[i]].cache), p[i], p[i + 1])
-}
-/// ORDER hypothesis: every importer on the chain was taken from the worklist when it already was a plugin file
-/// (for p[0]: it is a plugin file at the start; for p[i], i >= 1: it was marked BEFORE it was processed)
-pub open spec fn processed_as_plugin(h: Hist, p: Seq<PV>) -> bool {
-    forall|i: int| 0 <= i < p.len() - 1 ==> h.snap[#[trigger] p[i]].plugins.contains(p[i])
+/// a chain e = p[0] -> p[1] -> ... of star imports / pytest_plugins declarations; the edge out of an examined file is
+/// read in the state of its LAST examination (file_cache may grow during the scan and module resolution looks at it)
+pub open spec fn star_chain(h: Hist, p: Seq<PV>) -> bool {
+    p.len() >= 1 && forall|i: int| 0 <= i < p.len() - 1 && h.snap.contains_key(#[trigger] p[i]) ==> edge(env_of(h.snap[p[i]].cache), p[i], p[i + 1])
 }
 //@tags C14
-/// (P) transitive propagation, under the order hypothesis: every module on the chain ends up a plugin file
-pub proof fn lemma_C14_plugin_chain_marked(o: FixtureDatabase, f: FixtureDatabase, h: Hist, p: Seq<PV>)
-    requires post(o, f, h), plugin_chain(h, p), processed_as_plugin(h, p),
-    ensures forall|i: int| 1 <= i < p.len() ==> f.plugins().contains(#[trigger] p[i]),
+/// (P) transitive propagation, NO order hypothesis any more (commit 402a101: a module marked after it was examined is
+/// examined again): if the head of the chain is examined and ends up a plugin file, every module on the chain is
+/// examined and ends up a plugin file
+pub proof fn lemma_C14_plugin_chain_marked(o: FixtureDatabase, f: FixtureDatabase, h: Hist, p: Seq<PV>, n: int)
+    requires post(o, f, h), star_chain(h, p), h.snap.contains_key(p[0]), f.plugins().contains(p[0]), 0 <= n < p.len(),
+    ensures h.snap.contains_key(p[n]), f.plugins().contains(p[n]),
+    decreases n,
 {
-    assert forall|i: int| 1 <= i < p.len() implies f.plugins().contains(#[trigger] p[i]) by {
-        let g = p[i - 1];
-        assert(h.snap.contains_key(g) && edge(env_of(h.snap[g].cache), g, p[i - 1 + 1]));
+    if n > 0 {
+        lemma_C14_plugin_chain_marked(o, f, h, p, n - 1);
+        let g = p[n - 1];
+        assert(edge(env_of(h.snap[g].cache), g, p[n - 1 + 1]));
+        assert(h.snap[g].plugins.contains(g));
+        lemma_edge_is_any_edge(env_of(h.snap[g].cache), g, p[n]);
     }
 }
 //@tags C14
-/// the order hypothesis holds for free for importers that are plugin files from the start
-pub proof fn lemma_C14_initial_plugins_are_processed_as_plugin(o: FixtureDatabase, f: FixtureDatabase, h: Hist, g: PV)
-    requires post(o, f, h), h.snap.contains_key(g), o.plugins().contains(g),
+/// ... in particular from a cached pytest11 entry-point plugin file (it is in the start set and a plugin file throughout)
+pub proof fn lemma_C14_entry_plugin_chain_marked(o: FixtureDatabase, f: FixtureDatabase, h: Hist, p: Seq<PV>, n: int)
+    requires post(o, f, h), star_chain(h, p), o.plugins().contains(p[0]), o.cache().contains_key(p[0]), 0 <= n < p.len(),
+    ensures f.plugins().contains(p[n]),
+{
+    assert(o.initial(p[0]));
+    lemma_C14_plugin_chain_marked(o, f, h, p, n);
+}
+//@tags C14
+/// every examined file that ends up a plugin file was (last) examined as one
+pub proof fn lemma_C14_plugins_examined_as_plugins(o: FixtureDatabase, f: FixtureDatabase, h: Hist, g: PV)
+    requires post(o, f, h), h.snap.contains_key(g), f.plugins().contains(g),
     ensures h.snap[g].plugins.contains(g),
 { }
 //@tags C14
@@ -815,12 +1268,18 @@ pub proof fn lemma_C14_explicit_import_is_no_edge(env: Env, g: PV, x: PV)
     if exists|i: int| #[trigger] star_at(env, g, i, x) { let i = choose|i: int| #[trigger] star_at(env, g, i, x); assert(imp_any_at(env, g, i, x)); }
 }
 //@tags C14
-/// (D) discovery along a chain of imports (star, explicit, pytest_plugins): if the chain starts at a processed file
-/// and no file on it was cached at the start without belonging to the start set, every file on it is processed
+/// (D) one step, unconditional since commit 415c9c5: every import target (star, explicit, pytest_plugins) of an
+/// examined file is examined — also when it already was a file_cache key
+pub proof fn lemma_C14_import_targets_examined(o: FixtureDatabase, f: FixtureDatabase, h: Hist, a: PV, b: PV)
+    requires post(o, f, h), h.snap.contains_key(a), any_edge(env_of(h.snap[a].cache), a, b),
+    ensures h.snap.contains_key(b),
+{ }
+//@tags C14
+/// (D) discovery along a chain of imports, no hypothesis on what was cached: every file on a chain that starts at an
+/// examined file is examined (edges read in the state of each importer's last examination)
 pub proof fn lemma_C14_discovery_chain(o: FixtureDatabase, f: FixtureDatabase, h: Hist, p: Seq<PV>, n: int)
     requires post(o, f, h), p.len() >= 1, h.snap.contains_key(p[0]), 0 <= n < p.len(),
         forall|i: int| 0 <= i < p.len() - 1 && h.snap.contains_key(#[trigger] p[i]) ==> any_edge(env_of(h.snap[p[i]].cache), p[i], p[i + 1]),
-        forall|i: int| 1 <= i < p.len() && o.cache().contains_key(#[trigger] p[i]) ==> o.initial(p[i]),
     ensures h.snap.contains_key(p[n]),
     decreases n,
 {
@@ -828,10 +1287,6 @@ pub proof fn lemma_C14_discovery_chain(o: FixtureDatabase, f: FixtureDatabase, h
         lemma_C14_discovery_chain(o, f, h, p, n - 1);
         let g = p[n - 1];
         assert(any_edge(env_of(h.snap[g].cache), g, p[n - 1 + 1]));
-        if !h.snap.contains_key(p[n]) {
-            assert(h.snap[g].cache.contains_key(p[n]));
-            if has_disc(h.tr, h.nfresh, p[n]) { let i = choose|i: int| 0 <= i < h.nfresh && i < h.tr.len() && (#[trigger] h.tr[i]).f == p[n]; }
-        }
     }
 }
 //@tags C14
@@ -932,7 +1387,16 @@ pub proof fn lemma_C14_processed_files_end_up_cached(o: FixtureDatabase, f: Fixt
     }
 }
 //@tags C14
-/// (R) under the same bound every discovered module is analysed with analyze_file_fresh at most once
+/// (R) no duplicate index entries, as far as the frame stubs go, WITHOUT a size bound (commit e159908): a discovered
+/// module is analysed with analyze_file_fresh only if the index has no definitions / usages entry for it at that
+/// moment, and with analyze_file (cleanup first) whenever it has.  (That a file with recorded definitions always has a
+/// file_definitions entry is invariant W1 of unit index_maint, not restated here.)
+pub proof fn lemma_C14_fresh_only_without_entries(o: FixtureDatabase, f: FixtureDatabase, h: Hist, i: int)
+    requires post(o, f, h), 0 <= i < h.nfresh,
+    ensures h.tr[i].cleanup == has_entries(replay(o.idx(), o.consts(), h.tr.take(i)), h.tr[i].f),
+{ reveal(cleanup_ok); }
+//@tags C14
+/// (R) with at most MAX_FILE_CACHE_SIZE candidate paths every discovered module is analysed at most once
 pub proof fn lemma_C14_fresh_analysis_once(o: FixtureDatabase, f: FixtureDatabase, h: Hist, i: int, j: int)
     requires post(o, f, h), o.cache().dom().subset_of(scan_universe()), scan_universe().len() <= max_file_cache(), 0 <= i < j < h.nfresh,
     ensures h.tr[i].f != h.tr[j].f,
@@ -948,20 +1412,35 @@ pub proof fn lemma_C14_fresh_analysis_once(o: FixtureDatabase, f: FixtureDatabas
 }
 
 // ---- canaries (must FAIL)
-/// "plugin status propagates along ANY chain of star imports from a plugin file" (no order hypothesis)
-pub proof fn canary_plugin_chain_any_order(o: FixtureDatabase, f: FixtureDatabase, h: Hist, p: Seq<PV>)
-    requires post(o, f, h), plugin_chain(h, p), p.len() == 3, h.snap[p[0]].plugins.contains(p[0]),
-    ensures f.plugins().contains(p[2]),
+/// "a plugin file that is NOT a file_cache key (never examined) propagates its status"
+pub proof fn canary_uncached_plugin_propagates(o: FixtureDatabase, f: FixtureDatabase, h: Hist, e: PV, x: PV)
+    requires post(o, f, h), o.plugins().contains(e), edge(env_of(f.cache()), e, x),
+    ensures f.plugins().contains(x),
+{ }
+/// "propagation can be read off the FINAL file_cache" (edges are fixed at the importer's last examination)
+pub proof fn canary_plugin_edge_in_final_state(o: FixtureDatabase, f: FixtureDatabase, h: Hist, e: PV, x: PV)
+    requires post(o, f, h), h.snap.contains_key(e), f.plugins().contains(e), edge(env_of(f.cache()), e, x),
+    ensures f.plugins().contains(x),
 { }
 /// "an explicit import from a plugin file marks the imported module"
 pub proof fn canary_explicit_import_marks(o: FixtureDatabase, f: FixtureDatabase, h: Hist, g: PV, i: int, x: PV)
     requires post(o, f, h), h.snap.contains_key(g), h.snap[g].plugins.contains(g), imp_any_at(env_of(h.snap[g].cache), g, i, x),
     ensures f.plugins().contains(x),
 { }
-/// "everything reachable through imports is processed" (without excluding pre-cached files outside the start set)
-pub proof fn canary_discovery_through_cached_file(o: FixtureDatabase, f: FixtureDatabase, h: Hist, a: PV, b: PV)
-    requires post(o, f, h), h.snap.contains_key(a), any_edge(env_of(h.snap[a].cache), a, b),
-    ensures h.snap.contains_key(b),
+/// "every file_cache key is examined" (only the start set and what is reachable from it)
+pub proof fn canary_all_cached_files_examined(o: FixtureDatabase, f: FixtureDatabase, h: Hist, k: PV)
+    requires post(o, f, h), o.cache().contains_key(k),
+    ensures h.snap.contains_key(k),
+{ }
+/// "a discovered module is analysed at most once" (without the size bound: eviction)
+pub proof fn canary_discovery_analyses_distinct(o: FixtureDatabase, f: FixtureDatabase, h: Hist, i: int, j: int)
+    requires post(o, f, h), 0 <= i < j < h.nfresh,
+    ensures h.tr[i].f != h.tr[j].f,
+{ }
+/// "discovered modules are always analysed with analyze_file_fresh"
+pub proof fn canary_discovery_analyses_all_fresh(o: FixtureDatabase, f: FixtureDatabase, h: Hist, i: int)
+    requires post(o, f, h), 0 <= i < h.nfresh,
+    ensures !h.tr[i].cleanup,
 { }
 /// "nothing is ever evicted" (without the size bound)
 pub proof fn canary_processed_files_always_cached(o: FixtureDatabase, f: FixtureDatabase, h: Hist, m: PV)
